@@ -75,6 +75,7 @@ func init() {
 				e1run("list-live-n3-d4", "list", 3, 4, "", o, nil, "live", 0),
 				e1run("doc-n2-d5", "doc", 2, 5, "", o, nil, "", 0),
 				e1run("doc-live-n3-d3", "doc", 3, 3, "", o, nil, "live", 0),
+				e1run("doc-live-n3-key1-d5", "doc", 3, 5, "key1", o, nil, "live", 0),
 				e1run("doc-n2-d4-order01", "doc", 2, 4, "", o, []int32{0, 1}, "", 0),
 				e1run("docnest-n2-d5-order01", "doc", 2, 5, "nest", o, []int32{0, 1}, "", 0),
 				e1run("docnest-n2-d5-order10", "doc", 2, 5, "nest", o, []int32{1, 0}, "", 0),
@@ -115,6 +116,7 @@ func init() {
 				e1run("list-n3-d4", "list", 3, 4, "", o, nil, "", 0),
 				e1run("list-live-n3-d4", "list", 3, 4, "", o, nil, "live", 0),
 				e1run("doc-live-n3-d3", "doc", 3, 3, "c02", o, nil, "live", 0),
+				e1run("doc-live-n3-key1-d5", "doc", 3, 5, "key1", o, nil, "live", 0),
 				e1run("doc-n2-d4", "doc", 2, 4, "c02", o, nil, "", 0),
 			}
 		} else {
